@@ -166,8 +166,8 @@ impl Builder {
                 }
                 let src = match sym {
                     8 => Src::exact(),
-                    9 => Src { sched: Sched::Full, short_by: 1 + k % d.len().max(1), extra: 0 },
-                    _ => Src { sched: Sched::Full, short_by: 0, extra: 1 + k % 4 },
+                    9 => Src { sched: Sched::Full, short_by: 1 + k % d.len().max(1), extra: 0, stream: false },
+                    _ => Src { sched: Sched::Full, short_by: 0, extra: 1 + k % 4, stream: false },
                 };
                 self.ops.push(WOp::Append { f, data: d, src });
             }
